@@ -389,3 +389,55 @@ def r13e(R):
     R.check(gc, tests[0].ast if tests else 'age test', ok,
             'expiry does not compare the light\'s age with the configured '
             'light_gc_time (age > max_age)')
+
+
+@rule('R13.f', ('C13',), 'age = now - birth; refresh expires; stepping from '
+      'an end of the list gives None', floor=4,
+      decides='expiry removes exactly the lights not seen for longer than the '
+              'configured age; stepping yields the nearest remaining name')
+def r13f(R):
+    A = R.A
+    lt = A.cls('bardolph.controller.light', 'Light')
+    ga = lt.methods['get_age']
+    rets = [n for n in walk_own(ga.node) if isinstance(n, ast.Return) and n.value is not None]
+    ok = len(rets) == 1 and isinstance(rets[0].value, ast.BinOp) \
+        and isinstance(rets[0].value.op, ast.Sub) \
+        and isinstance(rets[0].value.left, ast.Call) \
+        and norm(rets[0].value.left.func) in ('time.time', 'clock.now', 'now') \
+        and self_attr(rets[0].value.right) == '_birth'
+    R.check(ga, 'get_age() = now - birth', ok,
+            'a light\'s age is not "now minus the time it was last seen": '
+            'every light looks ancient (all expire) or never ages')
+    rf = A.func(LIGHTSET, 'LightSet.refresh')
+    cfg = A.cfg(rf)
+    gcs = A.calls_nodes(rf, 'LightSet._garbage_collect')
+    p = cfg.find_path([cfg.entry], lambda n: n is cfg.exit, avoid=gcs) if gcs else []
+    R.check(rf, 'refresh() -> _garbage_collect()', bool(gcs) and p is None,
+            'the periodic refresh no longer expires lights that have vanished')
+    sl = A.cls('bardolph.lib.sorted_list', 'SortedList')
+    for mname, end in (('next', 'len(self)'), ('prev', '0')):
+        m = sl.methods[mname]
+        mcfg = A.cfg(m)
+        # the element returned is indexed only when the position is inside
+        idx = [n for n in mcfg.nodes if n.is_return and n.ret_expr is not None
+               and isinstance(n.ret_expr, ast.Subscript)]
+        # the position: the local bound to the bisect call
+        pos = [norm(s.targets[0]) for s in walk_own(m.node)
+               if isinstance(s, ast.Assign) and isinstance(s.value, ast.Call)
+               and 'bisect' in norm(s.value.func)]
+        ok = bool(idx) and len(pos) == 1
+        for n in idx:
+            facts = A.path_facts(m, n)
+            alt = tuple(sorted((pos[0] if pos else 'pos', end)))
+            ok = ok and any(t == '%s == %s' % alt and truth is False
+                            for t, truth in facts)
+        empties = [t for t in mcfg.nodes if t.kind == 'cond' and isinstance(t.ast, ast.Compare)
+                   and norm(t.ast.left) == 'len(self)'
+                   and A.try_fold(t.ast.comparators[0], m, 'x') == 0
+                   and isinstance(t.ast.ops[0], ast.Eq)]
+        R.check(m, 'SortedList.%s: None at the %s end, else the neighbour'
+                % (mname, 'upper' if mname == 'next' else 'lower'),
+                ok and len(empties) == 1,
+                'SortedList.%s does not answer None exactly at the end of the '
+                'list (or treats a one-element list as empty): an iteration '
+                'loses a light or never ends' % mname)
